@@ -428,6 +428,34 @@ fn run_long(c: &LongSeq, obs: &mut Obs) -> Result<(), String> {
     unary_laws(&m, &r, &s)?;
     binary_laws(&m, &r, &m2, &r2, &s)?;
     binary_laws(&m2, &r2, &m, &r, &s)?;
+    // a bijection on 11 to 25 slots (random sequences rarely build large bijections), keys inserted in a case-dependent order
+    {
+        let bytes: Vec<usize> = c.ops.iter().flat_map(|(a, b, c)| [*a as usize, *b as usize, *c as usize]).collect();
+        let byte = |i: usize| if bytes.is_empty() { i * 7 + 3 } else { bytes[i % bytes.len()] + i };
+        let len = (11 + byte(0) % 15).min(s.len());
+        let mut keys: Vec<usize> = (0..s.len()).collect();
+        for i in (1..keys.len()).rev() {
+            keys.swap(i, byte(i) % (i + 1));
+        }
+        keys.truncate(len);
+        let mut vals = keys.clone();
+        for i in (1..vals.len()).rev() {
+            vals.swap(i, byte(100 + i) % (i + 1));
+        }
+        let mut m3 = SlotMap::new();
+        let mut r3 = Ref::new();
+        for (k, v) in keys.iter().zip(vals.iter()) {
+            m3.insert(s[*k], s[*v]);
+            r3.insert(s[*k], s[*v]);
+        }
+        agree(&m3, &r3, &s).map_err(|e| format!("bijection on {len} slots: {e}"))?;
+        unary_laws(&m3, &r3, &s).map_err(|e| format!("bijection on {len} slots: {e}"))?;
+        binary_laws(&m3, &r3, &m, &r, &s).map_err(|e| format!("bijection on {len} slots composed with the sequence's map: {e}"))?;
+        binary_laws(&m, &r, &m3, &r3, &s).map_err(|e| format!("the sequence's map composed with a bijection on {len} slots: {e}"))?;
+        if len > 20 {
+            obs.label("bijection-on-more-than-20-slots");
+        }
+    }
     if maxlen > 10 {
         obs.label("beyond-inline-capacity");
     }
@@ -483,7 +511,7 @@ pub fn property(tier: Tier) -> Property {
         run: run_long,
         panic_is_violation: true,
         render: |c: &LongSeq| format!("{:?}", c.ops),
-        rule: "random sequences of up to 80 insert/remove/values_mut/swap operations on two maps over 25 slots (numeric, named, f<n>-named, fresh, and the name of the very next fresh slot); non-trivial = a map grew beyond the inline capacity of 10; distinct by sequence",
+        rule: "random sequences of up to 80 insert/remove/values_mut/swap operations on two maps over 25 slots (numeric, named, f<n>-named, fresh, and the name of the very next fresh slot); at the end a bijection on 11-25 slots (keys inserted in a case-dependent order) goes through the unary laws (inverse, inverse twice, composition with the inverse) and is composed with the sequence's map both ways; non-trivial = a map grew beyond the inline capacity of 10; distinct by sequence",
         case_timeout_s: 60,
         exhaustive: false,
     }));
